@@ -407,7 +407,8 @@ fn shape_from_spans(route: &str, m: &Mis, r: &gy::RenderedYaml) -> Option<&'stat
         // the document start is misread: whatever error follows is a consequence
         ("root-anchor-then-comment", "build-err", _) => true,
         ("root-block-scalar-reread", "build-err", _) => true,
-        ("literal-hash-first-then-indented", "build-err", "InconsistentIndentation") => true,
+        // the tail of the scalar is re-read as structure: any later error is a consequence
+        ("literal-hash-first-then-indented", "build-err", _) => true,
         ("empty-value-then-col0-quoted-key", "walk", "null") => matches!(m.actual_str, Some((false, _))),
         ("empty-node-at-eof-len64", "walk", "null") => m.actual.contains("invalid cursor position"),
         ("nextline-plain-continuation-not-deeper", "walk", "str-content") => true,
